@@ -32,12 +32,12 @@ var c12Values = []c12Val{
 	{"'x'", "x", false}, {"''", "", false}, {"'1'", "1", false}, {"'abc'", "abc", false}, {"'2.5'", "2.5", false},
 	{"true", true, false}, {"false", false, false}, {"NULL", nil, false}, {"missing", nil, true},
 	{"[]any{1}", []any{1}, false}, {"map", map[string]any{"a": 1}, false},
-	{"'a b'", "a b", false}, {"'a  b'", "a  b", false}, // appended (index lists below refer to the positions above)
+	{"'a b'", "a b", false}, {"'a  b'", "a  b", false}, {"a<newline>b", "a\nb", false}, {"a<backslash>nb", "a\\nb", false}, // appended (index lists below refer to the positions above)
 }
 
 var c12Ops = []string{">", ">=", "<", "<=", "==", "!=", "=", "<>"}
 var c12NumLits = []string{"0", "1", "-1", "2.5", "-0.5", "2", "9007199254740992", "9007199254740993"}
-var c12StrLits = []string{"'x'", "''", "'1'", "'abc'", "'a b'", "'a  b'"} // the last two differ only in the blanks inside the literal
+var c12StrLits = []string{"'x'", "''", "'1'", "'abc'", "'a b'", "'a  b'", "'a\\nb'"} // 'a b' / 'a  b' differ only in the blanks inside the literal; the last holds a backslash escape
 
 func c12Row(field string, v c12Val) Row {
 	r := Row{}
